@@ -834,6 +834,19 @@ impl<'a> VisitMut for Rw<'a> {
                     }
                 }
             }
+            if repl.is_none() {
+                if let Expr::MethodCall(mc) = e {
+                    if mc.method == "and_then" && mc.args.len() == 1 {
+                        if let Some(c) = closure_of(&mc.args[0]) {
+                            if let Some(p) = closure_single_pat(&c) {
+                                let recv = &mc.receiver;
+                                let b = &c.body;
+                                repl = Some(parse_quote!(match #recv { Some(#p) => #b, None => None }));
+                            }
+                        }
+                    }
+                }
+            }
             if let Some(r) = repl {
                 *e = r;
                 self.bump("R19.option_combinator");
@@ -844,9 +857,20 @@ impl<'a> VisitMut for Rw<'a> {
             if let Expr::MethodCall(mc) = e {
                 if mc.method == "retain" && mc.args.len() == 1 {
                     if let Some(c) = closure_of(&mc.args[0]) {
-                        if let Some(p) = closure_single_pat(&c) {
+                        if let Some(p0) = closure_single_pat(&c) {
                             let recv = &mc.receiver;
-                            let b = &c.body;
+                            let b0 = &c.body;
+                            // `|&x| B`  ->  bind the reference and deref inside (Verus: no reference patterns)
+                            let (p, b): (Pat, Expr) = match &p0 {
+                                Pat::Reference(pr) if pr.mutability.is_none() => {
+                                    let inner = &pr.pat;
+                                    let rp = self.fresh("p");
+                                    (parse_quote!(#rp), parse_quote!({ let #inner = *#rp; #b0 }))
+                                }
+                                _ => (p0.clone(), (**b0).clone()),
+                            };
+                            let p = &p;
+                            let b = &b;
                             let o = self.fresh("o");
                             let ne: Expr = if self.retain == "deque" {
                                 let n = self.fresh("n");
@@ -1590,11 +1614,23 @@ fn do_fn(items: &[Item], req: &ItemReq, feats: &[String]) -> std::result::Result
     }
 
     let mut rw = Rw { setiter: req.setiter.clone(), wrote_lock: false, refpat: 0, retain: req.retain.clone().unwrap_or_else(|| "vec".into()), feats, counts, err: None, fresh_by_kind: BTreeMap::new(), no: req.no_rewrite.clone() };
-    // signature: strip attrs on params
+    // signature: strip attrs on params; a stub has no body, so the `mut` binding mode of by-value parameters is dropped
     for a in sig.inputs.iter_mut() {
         match a {
-            FnArg::Receiver(r) => r.attrs.clear(),
-            FnArg::Typed(t) => t.attrs.clear(),
+            FnArg::Receiver(r) => {
+                r.attrs.clear();
+                if req.sig_only && r.reference.is_none() {
+                    r.mutability = None;
+                }
+            }
+            FnArg::Typed(t) => {
+                t.attrs.clear();
+                if req.sig_only {
+                    if let Pat::Ident(pi) = &mut *t.pat {
+                        pi.mutability = None;
+                    }
+                }
+            }
         }
     }
     // `.collect()` in tail / return position of a function that returns Vec<..>: the target type is known
